@@ -279,3 +279,17 @@ for _a in ((0, 0, 1, 'a'), (1, 1, 1, 'a'), (2, 0, 1, 'a')):
         body_into_data_history(*_a)
     except Exception:
         pass
+
+
+@obligation(pre="0 <= first <= 5 and 0 <= second <= 5 and first != second", witnesses=(0,), timeout=240)
+def body_generic_history(first: int, second: int) -> int:
+    """the left-most member wins also inside a generic dataclass subscripted after an equal-comparing argument with the members in the other order"""
+    from props import shared as _sh
+    n = 0
+    a = b = 0
+    for k in range(6):
+        if first == k:
+            a = k
+        if second == k:
+            b = k
+    return _sh.check_generic_history(a, b)
